@@ -7,6 +7,8 @@ import (
 	"sort"
 	"strings"
 	"time"
+
+	"golang.org/x/tools/go/ssa"
 )
 
 type Decision struct {
@@ -93,6 +95,24 @@ type Explorer struct {
 	maxViol  int
 	threads  *sched
 	known    map[*Term]*Term // term -> constant implied by an equality on the path
+	curFr    *frame
+	curInstr ssa.Instruction
+}
+
+// where describes the target-program location being executed.
+func (e *Explorer) where() string {
+	if e.curFr == nil || e.curFr.fn == nil {
+		return "?"
+	}
+	s := e.curFr.fn.String()
+	if e.curInstr != nil && e.curInstr.Pos().IsValid() {
+		p := e.curFr.fn.Prog.Fset.Position(e.curInstr.Pos())
+		s += fmt.Sprintf(" (%s:%d)", p.Filename[strings.LastIndex(p.Filename, "/")+1:], p.Line)
+	}
+	if c := e.curFr.caller; c != nil && c.fn != nil {
+		s += " <- " + c.fn.String()
+	}
+	return s
 }
 
 var ex *Explorer
@@ -279,7 +299,7 @@ func (e *Explorer) SplitN(t *Term, splitMax int) uint64 {
 	excl := []*Term{Not(Cmp(OEq, t, BV(v0, t.W)))}
 	for n := 0; ; n++ {
 		if n >= splitMax {
-			e.inconclusive(fmt.Sprintf("split domain larger than %d", splitMax))
+			e.inconclusive(fmt.Sprintf("split domain larger than %d at %s", splitMax, e.where()))
 			break
 		}
 		r, m := e.solver.Check(excl...)
